@@ -215,6 +215,8 @@ def code_correct(I, fi, args, kw, bound_cls):
     s = syndrome(I, ci, bits)
     if all(isinstance(x, F) and x.is_const and x.c == 0 for x in s):
         return (True, v)  # provably a codeword: left unchanged (C06 use/correct)
+    if all(isinstance(x, F) and x.is_const for x in s) and getattr(I, "interpret_constant_syndromes", False):
+        return NotImplemented  # a known non-zero syndrome: the REAL repair code is interpreted (which bit it inverts, or gives up)
     key = ("repair", ci.qualname, tuple(I.simp_bits(bits)))
     fixed = ABits([I.atom_form(("fn", key, j)) for j in range(len(bits))], v.kind if isinstance(v, ABits) else "np")
     if isinstance(v, ABits):
@@ -224,7 +226,10 @@ def code_correct(I, fi, args, kw, bound_cls):
 
 
 def code_correct_np(I, fi, args, kw, bound_cls):
-    ok, r = code_correct(I, fi, args, kw, bound_cls)
+    res = code_correct(I, fi, args, kw, bound_cls)
+    if res is NotImplemented:
+        return NotImplemented
+    ok, r = res
     if ok is True:
         a = [x for x in args if not isinstance(x, ClassRef)]
         return a[0]
